@@ -25,7 +25,9 @@ WORDS = ["", "A", "Hi", "Temp:", "hello world", "0123456789", "Setup complete", 
 def text_of_len(rng, n):
     if n <= 0:
         return ""
-    base = rng.choice(["abcdefghijklmnopqrstuvwxyz", "The quick brown fox jumps over the lazy dog", "0123456789" * 5, "Lorem ipsum dolor sit amet consectetur"])
+    base = rng.choice(["abcdefghijklmnopqrstuvwxyz", "The quick brown fox jumps over the lazy dog", "0123456789" * 5, "Lorem ipsum dolor sit amet consectetur",
+                       # characters that are written with an escape in the C++ literal are still ONE cell each
+                       'say "hi" to "everyone" here and "now" again', "C:\\dir\\sub\\file.txt and D:\\x\\y", "it's 5 o'clock: \"ok\" \\ done %d {x}"])
     s = (base * (n // len(base) + 1))[:n]
     if s.startswith(" "):
         s = "_" + s[1:]
